@@ -68,8 +68,8 @@ Definition can_stale_while_revalidate (d : dirs) (age : Z) : bool :=
   match d_swr d with Some n => age <? n | None => false end.
 Definition vary_by_origin (d : dirs) : bool := existsb (str_eqb (bytes "origin")) (d_vary d).
 
-(* strings.TrimLeft(s, "W/") *)
-Definition normalize_etag (s : str) : str := trim_left s (bytes "W/").
+(* strings.TrimPrefix(s, "W/") *)
+Definition normalize_etag (s : str) : str := trim_prefix s (bytes "W/").
 
 (* ---- ETag suffix (ETAG_SUFFIX); None = unset ---- *)
 Definition s_quote : str := [34%N].
